@@ -307,4 +307,311 @@ theorem freshFrom_props (s p : Nat) (vs : List Vec) :
     · simp [fresh]
     · exact ih _ d hd
 
+/-! ## One NSGA-II iteration taken apart -/
+
+def stepEval (cfg : Cfg) (s : RunState) (offs : List Vec) : Option Err × List Design × World :=
+  evalSerial cfg.env (freshFrom s.nextKey cfg.prec offs) s.world
+
+/-- `offsprings` after the parent copies were appended. -/
+def stepMerged (cfg : Cfg) (s : RunState) (offs : List Vec) : List Design :=
+  (stepEval cfg s offs).2.1 ++ copiesFrom (s.nextKey + offs.length) cfg.prec s.parents
+
+structure StepFacts (cfg : Cfg) (it : Nat) (o : StepOracle) (s s' : RunState)
+    (offs : List Vec) (fc : List (Nat × Option Rat)) (r : List Nat) : Prop where
+  hgen : Runs.generate cfg.eq cfg.N o.children [] = some offs
+  heval : (stepEval cfg s offs).1 = none
+  hsort : sortCrowd (stepMerged cfg s offs) = some fc
+  htrunc : truncate (mkInds (stepMerged cfg s offs) fc) cfg.N o.setOrder = some r
+  hsurv : allSome (r.map (member? (stepMerged cfg s offs) fc (it + 2))) = some s'.parents
+  hworld : s'.world = (stepEval cfg s offs).2.2
+  hrec : s'.recorded = s.recorded ++ s'.parents
+
+theorem nsga2Step_some {cfg : Cfg} {it : Nat} {o : StepOracle} {s s' : RunState}
+    (h : nsga2Step cfg it o s = some s') : ∃ offs fc r, StepFacts cfg it o s s' offs fc r := by
+  unfold nsga2Step at h
+  cases hg : Runs.generate cfg.eq cfg.N o.children [] with
+  | none => simp [hg] at h
+  | some offs =>
+    simp only [hg] at h
+    cases he : (evalSerial cfg.env (freshFrom s.nextKey cfg.prec offs) s.world).1 with
+    | some e => simp [he] at h
+    | none =>
+      simp only [he] at h
+      cases hs : sortCrowd ((evalSerial cfg.env (freshFrom s.nextKey cfg.prec offs) s.world).2.1 ++
+          copiesFrom (s.nextKey + offs.length) cfg.prec s.parents) with
+      | none => simp [hs] at h
+      | some fc =>
+        simp only [hs] at h
+        cases ht : truncate (mkInds ((evalSerial cfg.env (freshFrom s.nextKey cfg.prec offs) s.world).2.1 ++
+            copiesFrom (s.nextKey + offs.length) cfg.prec s.parents) fc) cfg.N o.setOrder with
+        | none => simp [ht] at h
+        | some r =>
+          simp only [ht] at h
+          cases hv : allSome (r.map (member? ((evalSerial cfg.env (freshFrom s.nextKey cfg.prec offs) s.world).2.1 ++
+              copiesFrom (s.nextKey + offs.length) cfg.prec s.parents) fc (it + 2))) with
+          | none => simp [hv] at h
+          | some surv =>
+            simp only [hv, Option.some.injEq] at h
+            subst h
+            exact ⟨offs, fc, r, ⟨hg, he, hs, ht, hv, rfl, rfl⟩⟩
+
+theorem copiesFrom_length (st prec : Nat) (ps : List Member) : (copiesFrom st prec ps).length = ps.length := by
+  induction ps generalizing st with
+  | nil => rfl
+  | cons p ps ih => simp [copiesFrom, ih]
+
+theorem copiesFrom_get (st prec : Nat) (ps : List Member) (j : Nat) (hj : j < ps.length) :
+    (copiesFrom st prec ps)[j]'(by rw [copiesFrom_length]; exact hj) = copyOf (st + j) prec ps[j] := by
+  induction ps generalizing st j with
+  | nil => simp at hj
+  | cons p ps ih =>
+    cases j with
+    | zero => simp [copiesFrom]
+    | succ j =>
+      simp only [copiesFrom, List.getElem_cons_succ]
+      rw [ih (st + 1) j (by simpa using hj)]
+      congr 1; omega
+
+theorem copiesFrom_mem {st prec : Nat} {ps : List Member} {d : Design} (h : d ∈ copiesFrom st prec ps) :
+    ∃ p ∈ ps, d.vec = p.d.vec ∧ d.signed = p.d.signed ∧ d.marker = p.d.marker := by
+  induction ps generalizing st with
+  | nil => simp [copiesFrom] at h
+  | cons p ps ih =>
+    simp only [copiesFrom, List.mem_cons] at h
+    rcases h with rfl | h
+    · exact ⟨p, by simp, rfl, rfl, rfl⟩
+    · obtain ⟨q, hq, e⟩ := ih h
+      exact ⟨q, by simp [hq], e⟩
+
+/-- Everything of an iteration that does not need a hypothesis on the objective. -/
+theorem stepEval_length {cfg : Cfg} {s : RunState} {offs : List Vec} (h : (stepEval cfg s offs).1 = none) :
+    (stepEval cfg s offs).2.1.length = offs.length ∧
+    (stepEval cfg s offs).2.2.log.length + s.world.failed.length =
+      s.world.log.length + (stepEval cfg s offs).2.2.failed.length + offs.length := by
+  have := evalSerial_count cfg.env (freshFrom s.nextKey cfg.prec offs) s.world
+    (fun d hd => (freshFrom_props _ _ _ d hd).1) h
+  simpa [stepEval, freshFrom_length] using this
+
+theorem stepMerged_length {cfg : Cfg} {s : RunState} {offs : List Vec} (h : (stepEval cfg s offs).1 = none) :
+    (stepMerged cfg s offs).length = offs.length + s.parents.length := by
+  simp [stepMerged, (stepEval_length h).1, copiesFrom_length]
+
+/-- The parent with index `j` sits at position `offs.length + j` of the merged population. -/
+theorem stepMerged_parent {cfg : Cfg} {s : RunState} {offs : List Vec} (h : (stepEval cfg s offs).1 = none)
+    (j : Nat) (hj : j < s.parents.length) :
+    ∃ (hm : offs.length + j < (stepMerged cfg s offs).length),
+      (stepMerged cfg s offs)[offs.length + j].vec = s.parents[j].d.vec ∧
+      (stepMerged cfg s offs)[offs.length + j].signed = s.parents[j].d.signed ∧
+      (stepMerged cfg s offs)[offs.length + j].marker = s.parents[j].d.marker := by
+  have hl := (stepEval_length h).1
+  refine ⟨by rw [stepMerged_length h]; omega, ?_⟩
+  have : (stepMerged cfg s offs)[offs.length + j]'(by rw [stepMerged_length h]; omega) =
+      copyOf (s.nextKey + offs.length + j) cfg.prec s.parents[j] := by
+    unfold stepMerged
+    rw [List.getElem_append_right (by omega)]
+    simp only [hl, Nat.add_sub_cancel_left]
+    exact copiesFrom_get _ _ _ j hj
+  rw [this]
+  exact ⟨rfl, rfl, rfl⟩
+
+/-- The survivors of an iteration: tags, and as designs they are members of the merged population
+at the positions the truncation returned. -/
+theorem step_survivors {cfg : Cfg} {it : Nat} {o : StepOracle} {s s' : RunState} {offs fc r}
+    (F : StepFacts cfg it o s s' offs fc r) :
+    s'.parents.length = r.length ∧
+    (∀ m ∈ s'.parents, m.tag = it + 2) ∧
+    ∀ k (hk : k < s'.parents.length) (hr : k < r.length),
+      ∃ (hd : r[k] < (stepMerged cfg s offs).length) (hf : r[k] < fc.length),
+        s'.parents[k].d = (stepMerged cfg s offs)[r[k]] ∧ s'.parents[k].front = fc[r[k]].1 := by
+  obtain ⟨hl, hg⟩ := survivors_spec F.hsurv
+  refine ⟨hl, ?_, ?_⟩
+  · intro m hm
+    obtain ⟨k, hk, rfl⟩ := List.mem_iff_getElem.1 hm
+    obtain ⟨_, _, e⟩ := hg k hk (by omega)
+    rw [e]
+  · intro k hk hr
+    obtain ⟨hd, hf, e⟩ := hg k hk hr
+    exact ⟨hd, hf, by rw [e], by rw [e]⟩
+
+/-! ## Distinct designs: size and absence of repetitions after the truncation -/
+
+theorem designId_eq_imp {ds : List Design} {v w : Vec} (hv : ∃ d ∈ ds, d.vec = v)
+    (h : designId ds v = designId ds w) : v = w := by
+  obtain ⟨d, hd, rfl⟩ := hv
+  have hlt : designId ds d.vec < ds.length :=
+    List.findIdx_lt_length_of_exists ⟨d, hd, by simp⟩
+  have a : (ds[designId ds d.vec]?).map (·.vec) = some d.vec := by
+    rw [List.getElem?_eq_getElem hlt]
+    have := of_decide_eq_true (List.findIdx_getElem (p := fun x : Design => decide (x.vec = d.vec)) (xs := ds) (w := hlt))
+    exact congrArg some this
+  have hlt' : designId ds w < ds.length := h ▸ hlt
+  have b : (ds[designId ds w]?).map (·.vec) = some w := by
+    rw [List.getElem?_eq_getElem hlt']
+    have := of_decide_eq_true (List.findIdx_getElem (p := fun x : Design => decide (x.vec = w)) (xs := ds) (w := hlt'))
+    exact congrArg some this
+  rw [h, b] at a
+  exact (Option.some.inj a).symm
+
+/-- A list of pairwise different vectors that all occur in the population: at least that many
+distinct designs for `set()`. -/
+theorem distinct_of_vecs {ds : List Design} {fc : List (Nat × Option Rat)} (hfc : fc.length = ds.length)
+    (vs : List Vec) (hn : vs.Nodup) (hp : ∀ v ∈ vs, ∃ d ∈ ds, d.vec = v) :
+    vs.length ≤ distinctDesigns (mkInds ds fc) := by
+  have hL : (vs.map (designId ds)).Nodup :=
+    List.Nodup.map_on (fun v hv w _ e => designId_eq_imp (hp v hv) e) hn
+  have hsub : vs.map (designId ds) ⊆ dedupNat ((mkInds ds fc).map (·.design)) := by
+    intro a ha
+    rw [mem_dedupNat]
+    obtain ⟨v, hv, rfl⟩ := List.mem_map.1 ha
+    obtain ⟨d, hd, rfl⟩ := hp v hv
+    obtain ⟨i, hi, rfl⟩ := List.mem_iff_getElem.1 hd
+    have hi' : i < (mkInds ds fc).length := by rw [mkInds_length hfc]; exact hi
+    refine List.mem_map.2 ⟨(mkInds ds fc)[i], List.getElem_mem hi', ?_⟩
+    rw [mkInds_get hfc i hi]
+  have := (List.subperm_of_subset hL hsub).length_le
+  simpa [distinctDesigns] using this
+
+theorem step_fc_length {cfg : Cfg} {it : Nat} {o : StepOracle} {s s' : RunState} {offs fc r}
+    (F : StepFacts cfg it o s s' offs fc r) : fc.length = (stepMerged cfg s offs).length := by
+  obtain ⟨_, _, h, _⟩ := sortCrowd_spec F.hsort
+  exact h
+
+/-- No design twice among the survivors (from `truncate_nodup`, C03). -/
+theorem step_nodup {cfg : Cfg} {it : Nat} {o : StepOracle} {s s' : RunState} {offs fc r}
+    (F : StepFacts cfg it o s s' offs fc r) : (s'.parents.map (·.d.vec)).Nodup := by
+  have hfc := step_fc_length F
+  obtain ⟨hnd, hlt, hinj⟩ := C03.truncate_nodup _ _ _ _ F.htrunc
+  obtain ⟨hl, _, hg⟩ := step_survivors F
+  have e : s'.parents.map (·.d.vec) =
+      r.map (fun i => (((stepMerged cfg s offs)[i]?).map (·.vec)).getD []) := by
+    apply List.ext_getElem (by simp [hl])
+    intro k h1 h2
+    simp only [List.length_map] at h1 h2
+    obtain ⟨hd, _, e1, _⟩ := hg k h1 h2
+    simp [e1, List.getElem?_eq_getElem hd]
+  rw [e]
+  refine List.Nodup.map_on ?_ hnd
+  intro x hx y hy hxy
+  have hx' : x < (stepMerged cfg s offs).length := by
+    have := hlt x hx; rwa [mkInds_length hfc] at this
+  have hy' : y < (stepMerged cfg s offs).length := by
+    have := hlt y hy; rwa [mkInds_length hfc] at this
+  simp only [List.getElem?_eq_getElem hx', List.getElem?_eq_getElem hy', Option.map_some, Option.getD_some] at hxy
+  refine hinj x hx y hy _ _ (List.getElem?_eq_getElem (by rw [mkInds_length hfc]; exact hx'))
+    (List.getElem?_eq_getElem (by rw [mkInds_length hfc]; exact hy')) ?_
+  rw [mkInds_get hfc x hx', mkInds_get hfc y hy']
+  simp only
+  rw [hxy]
+
+/-- Exactly `N` survivors as soon as the merged population holds `N` pairwise different designs
+(from `truncate_size`, C03). -/
+theorem step_size {cfg : Cfg} {it : Nat} {o : StepOracle} {s s' : RunState} {offs fc r}
+    (F : StepFacts cfg it o s s' offs fc r) (vs : List Vec) (hn : vs.Nodup) (hlen : vs.length = cfg.N)
+    (hp : ∀ v ∈ vs, ∃ d ∈ stepMerged cfg s offs, d.vec = v) : s'.parents.length = cfg.N := by
+  have hfc := step_fc_length F
+  have h1 := C03.truncate_size _ _ _ _ F.htrunc
+  have h2 := distinct_of_vecs hfc vs hn hp
+  rw [(step_survivors F).1, h1]
+  omega
+
+/-- Parents with pairwise different designs suffice: their copies are in the merged population. -/
+theorem step_size_of_parents {cfg : Cfg} {it : Nat} {o : StepOracle} {s s' : RunState} {offs fc r}
+    (F : StepFacts cfg it o s s' offs fc r) (hn : (s.parents.map (·.d.vec)).Nodup)
+    (hlen : s.parents.length = cfg.N) : s'.parents.length = cfg.N := by
+  refine step_size F _ hn (by simpa using hlen) ?_
+  intro v hv
+  obtain ⟨p, hp, rfl⟩ := List.mem_map.1 hv
+  obtain ⟨j, hj, rfl⟩ := List.mem_iff_getElem.1 hp
+  obtain ⟨hm, e, _⟩ := stepMerged_parent F.heval j hj
+  exact ⟨_, List.getElem_mem hm, e⟩
+
+/-- So do evaluated offspring with pairwise different designs. -/
+theorem step_size_of_offspring {cfg : Cfg} {it : Nat} {o : StepOracle} {s s' : RunState} {offs fc r}
+    (F : StepFacts cfg it o s s' offs fc r) (hn : ((stepEval cfg s offs).2.1.map (·.vec)).Nodup)
+    (hlen : offs.length = cfg.N) : s'.parents.length = cfg.N := by
+  refine step_size F _ hn (by simp [(stepEval_length F.heval).1, hlen]) ?_
+  intro v hv
+  obtain ⟨d, hd, rfl⟩ := List.mem_map.1 hv
+  exact ⟨d, by simp [stepMerged, hd], rfl⟩
+
+/-! ## Costs as a function of the design: what the sorting then guarantees -/
+
+theorem stepMerged_good {cfg : Cfg} {s : RunState} {offs : List Vec} {f : Vec → List Rat}
+    (hp : Pure cfg.env f) (hgood : ∀ p ∈ s.parents, Good cfg.env f cfg.prec p.d)
+    (heval : (stepEval cfg s offs).1 = none) :
+    ∀ d ∈ stepMerged cfg s offs, Good cfg.env f cfg.prec d := by
+  intro d hd
+  unfold stepMerged at hd
+  rcases List.mem_append.1 hd with hd | hd
+  · exact evalSerial_good hp cfg.prec _ _ (freshFrom_props _ _ _) heval d hd
+  · obtain ⟨p, hpm, e1, e2, e3⟩ := copiesFrom_mem hd
+    have g := hgood p hpm
+    exact ⟨by rw [e2, e1]; exact g.signed, by rw [e3, e1]; exact g.marker⟩
+
+theorem step_good {cfg : Cfg} {it : Nat} {o : StepOracle} {s s' : RunState} {offs fc r}
+    {f : Vec → List Rat} (F : StepFacts cfg it o s s' offs fc r)
+    (hp : Pure cfg.env f) (hgood : ∀ p ∈ s.parents, Good cfg.env f cfg.prec p.d) :
+    ∀ p ∈ s'.parents, Good cfg.env f cfg.prec p.d := by
+  intro p hpm
+  obtain ⟨k, hk, rfl⟩ := List.mem_iff_getElem.1 hpm
+  obtain ⟨hl, _, hg⟩ := step_survivors F
+  obtain ⟨hd, _, e, _⟩ := hg k hk (by omega)
+  rw [e]
+  exact stepMerged_good hp hgood F.heval _ (List.getElem_mem hd)
+
+/-- The sorting of a population whose costs are a function of the design (all cost vectors of
+one length `m`): the populations of the C02 and C03 models that belong to it, with
+* `SameLen` (hypothesis of `fnds_rank`),
+* the front numbers the truncation sees are those of `fnds`,
+* `RankConsistent` (hypothesis of `truncate_rank_first`): equal designs carry equal front
+  numbers, because `fnds` depends only on the member's own costs and the set of members
+  (`fnds_perm`). -/
+theorem sorting_facts {env : Env} {f : Vec → List Rat} {prec m : Nat} {ds : List Design}
+    {fc : List (Nat × Option Rat)} (hgood : ∀ d ∈ ds, Good env f prec d) (hlen : ∀ v, (f v).length = m)
+    (hsort : sortCrowd ds = some fc) :
+    ∃ pop : List (List Rat × Int), pop.length = ds.length ∧ fc.length = ds.length ∧ SameLen pop ∧
+      (∀ i (hi : i < pop.length) (hd : i < ds.length), pop[i] = (ds[i].signed, markerFn env ds[i].vec)) ∧
+      (∀ i (hi : i < (mkInds ds fc).length), rankOf pop i = some (mkInds ds fc)[i].front) ∧
+      RankConsistent (mkInds ds fc) := by
+  obtain ⟨pop, hpop, hfc, hrank⟩ := sortCrowd_spec hsort
+  obtain ⟨hpl, hpg⟩ := signedPop_spec hpop
+  have hget : ∀ i (hi : i < pop.length) (hd : i < ds.length), pop[i] = (ds[i].signed, markerFn env ds[i].vec) := by
+    intro i hi hd
+    obtain ⟨a, b⟩ := hpg i hi hd
+    have g := (hgood ds[i] (List.getElem_mem hd)).marker
+    rw [a] at g
+    have : pop[i].2 = markerFn env ds[i].vec := Option.some.inj g
+    rw [← this, b]
+  have hs : SameLen pop := by
+    intro a ha b hb
+    obtain ⟨i, hi, rfl⟩ := List.mem_iff_getElem.1 ha
+    obtain ⟨j, hj, rfl⟩ := List.mem_iff_getElem.1 hb
+    rw [hget i hi (by omega), hget j hj (by omega)]
+    simp only
+    rw [(hgood _ (List.getElem_mem (by omega : i < ds.length))).signed,
+      (hgood _ (List.getElem_mem (by omega : j < ds.length))).signed]
+    simp [signedCosts, hlen]
+  have hil := mkInds_length hfc
+  have hfront : ∀ i (hi : i < (mkInds ds fc).length), rankOf pop i = some (mkInds ds fc)[i].front := by
+    intro i hi
+    have hi' : i < ds.length := by omega
+    rw [mkInds_get hfc i hi']
+    exact hrank i (by omega)
+  refine ⟨pop, hpl, hfc, hs, hget, hfront, ?_⟩
+  intro x hx y hy hxy
+  obtain ⟨i, hi, rfl⟩ := List.mem_iff_getElem.1 hx
+  obtain ⟨j, hj, rfl⟩ := List.mem_iff_getElem.1 hy
+  have hi' : i < ds.length := by omega
+  have hj' : j < ds.length := by omega
+  have hv : ds[i].vec = ds[j].vec := by
+    rw [mkInds_get hfc i hi', mkInds_get hfc j hj'] at hxy
+    exact (designId_inj hi' hj').1 hxy
+  have hpe : pop[i]'(by omega) = pop[j]'(by omega) := by
+    rw [hget i (by omega) hi', hget j (by omega) hj']
+    rw [(hgood _ (List.getElem_mem hi')).signed, (hgood _ (List.getElem_mem hj')).signed, hv]
+  have := C02.fnds_perm pop pop hs (fun _ => Iff.rfl) i j (pop[i]'(by omega))
+    (List.getElem?_eq_getElem (by omega)) (by rw [List.getElem?_eq_getElem (by omega), hpe])
+  rw [hfront i hi, hfront j hj] at this
+  exact Option.some.inj this
+
 end Artap.Nsga2
